@@ -8,6 +8,9 @@ pub const ALPHABETS: &[&[char]] = &[
     &['x', 'ß', '语', '😀'],
     &['a', ' ', 'é', '語', '\u{0301}'],
     &['a', 'b', ' ', '▁', '#'],
+    // only multi-byte characters: token byte lengths exceed character counts
+    &['é', '語'],
+    &['😀', '語', 'ß'],
 ];
 
 pub fn random_string(rng: &mut Rng, alphabet: &[char], max_len: usize) -> String {
